@@ -84,8 +84,8 @@ class Run:
     def violation(self, clause, detail):
         self.violations.append((clause, detail))
 
-    def known_finding(self, fid, what):
-        self.known[fid] = self.known.get(fid, 0) + 1
+    def known_finding(self, fid, what, n=1):
+        self.known[fid] = self.known.get(fid, 0) + n
         self.known_what.setdefault(fid, what)
 
     # -- end of run -----------------------------------------------------------------------
